@@ -7,6 +7,7 @@ import (
 	"go/types"
 	"sort"
 	"strings"
+	"sync"
 
 	"golang.org/x/tools/go/ssa"
 )
@@ -144,6 +145,7 @@ type FnEnc struct {
 	theoryEnd      int
 	segs           []seg // script segments by emitting block (for slicing a query to the blocks that reach it)
 	anc            map[int]map[int]bool
+	ancMu          sync.Mutex
 	theoryStart    int
 	lastFreshMods  map[string]bool
 	lastFullMods   map[string]bool
@@ -1033,7 +1035,13 @@ func (f *FnEnc) evalWithStates(expr *SX, env map[string]string, hs map[string]*S
 	for k, v := range env {
 		env2[k] = v
 	}
-	for name, st := range hs {
+	var hnames []string
+	for name := range hs {
+		hnames = append(hnames, name)
+	}
+	sort.Strings(hnames)
+	for _, name := range hnames {
+		st := hs[name]
 		if st == nil {
 			continue
 		}
@@ -1051,10 +1059,15 @@ func (f *FnEnc) evalWithStates(expr *SX, env map[string]string, hs map[string]*S
 	rest := map[string]bool{}
 	x.atoms(rest)
 	mat := map[string]string{}
+	var marks []string
 	for a := range rest {
-		if st, ok := states[a]; ok {
-			mat[a] = f.heapTerm(st)
+		if _, ok := states[a]; ok {
+			marks = append(marks, a)
 		}
+	}
+	sort.Strings(marks) // fixed order: heapTerm numbers the bundles it creates
+	for _, a := range marks {
+		mat[a] = f.heapTerm(states[a])
 	}
 	if len(mat) > 0 {
 		x = x.subst(mat)
@@ -1155,6 +1168,9 @@ func (f *FnEnc) curBlockIdx() int {
 // ancestors returns the set of blocks from which block b is reachable along forward edges
 // (b included).
 func (f *FnEnc) ancestors(b int) map[int]bool {
+	// called from the solver workers: the memo table is shared
+	f.ancMu.Lock()
+	defer f.ancMu.Unlock()
 	if f.anc == nil {
 		f.anc = map[int]map[int]bool{}
 	}
